@@ -320,8 +320,15 @@ func NewModelSet(modules map[string]Model, submodules map[string]Submodule,
 	ms.rpcs = make(map[string]map[string]Rpc)
 	ms.notifications = make(map[string]map[string]Notification)
 
-	// Merge the modules into a single tree
-	for _, mod := range modules {
+	// Merge the modules into a single tree, in a fixed order: the order of
+	// the merged children and choices is part of the result.
+	names := make([]string, 0, len(modules))
+	for name := range modules {
+		names = append(names, name)
+	}
+	sort.Strings(names)
+	for _, name := range names {
+		mod := modules[name]
 		ms.modules[mod.Identifier()] = mod
 		err := ms.addChildren(mod.Children())
 		if err != nil {
